@@ -62,6 +62,54 @@ func totalLoop(x *Ctx, rule, key string, f *ssa.Function, desc string, emit func
 			}
 		}
 	}
+	// the emitting step moved into a new helper that is called from the loop: the call is the emitting site when the
+	// helper emits exactly once, outside any loop of its own, on the way to each of its returns that does not fail
+	for _, g := range fns {
+		for _, b := range g.Blocks {
+			l := paths.Info(g).InnermostLoop(b)
+			if l == nil {
+				continue
+			}
+			for _, in := range b.Instrs {
+				c, ok := in.(ssa.CallInstruction)
+				if !ok {
+					continue
+				}
+				h := c.Common().StaticCallee()
+				if h == nil || h == g || len(h.Blocks) == 0 || !x.P.IsNewHelper(h) {
+					continue
+				}
+				var emits []ssa.Instruction
+				var vals []ssa.Value
+				for _, hb := range h.Blocks {
+					for _, hin := range hb.Instrs {
+						if v, ok := emit(hin); ok {
+							emits = append(emits, hin)
+							vals = append(vals, v)
+						}
+					}
+				}
+				if len(emits) != 1 || paths.Info(h).InnermostLoop(emits[0].Block()) != nil {
+					continue
+				}
+				always := true
+				for _, hb := range h.Blocks {
+					if len(hb.Instrs) == 0 {
+						continue
+					}
+					if _, isRet := hb.Instrs[len(hb.Instrs)-1].(*ssa.Return); isRet && !failingExit(hb, 0) {
+						if hb != emits[0].Block() && !emits[0].Block().Dominates(hb) {
+							always = false
+						}
+					}
+				}
+				if always {
+					sites = append(sites, site{in, vals[0], g, l})
+				}
+			}
+		}
+	}
+	// direct sites inside such helpers are not in a loop of theirs and were not collected above
 	bad := ""
 	byLoop := map[*paths.Loop][]site{}
 	for _, s := range sites {
